@@ -54,11 +54,11 @@ Instr(pc) == Code[pc + 1]
 (* st \in {"run","ok","fail","stuck"}                                        *)
 Fresh(f, l, c) ==
   [st |-> "run", pc |-> 0, pos |-> f, line |-> l, col |-> c,
-   bt |-> <<>>, loops |-> <<>>, calls |-> <<>>, open |-> <<>>, env |-> EmptyEnv]
+   bt |-> <<>>, loops |-> <<>>, calls |-> <<>>, open |-> <<>>, env |-> EmptyEnv, lenv |-> EmptyEnv]
 
 FrameOf(r) == [pc |-> r.pc, pos |-> r.pos, line |-> r.line, col |-> r.col,
                loops |-> r.loops, calls |-> r.calls, open |-> r.open,
-               env |-> r.env]
+               env |-> r.env, lenv |-> r.lenv]
 
 NextPc(r)    == [r EXCEPT !.pc = @ + 1]
 JumpTo(r, p) == [r EXCEPT !.pc = p]
@@ -73,6 +73,7 @@ Backtrack(r) ==
        IN [r EXCEPT !.pc = f.pc, !.pos = f.pos, !.line = f.line, !.col = f.col,
                     !.loops = f.loops, !.calls = f.calls, !.open = f.open,
                     !.env = IF "SharedEnv" \in Dev THEN r.env ELSE f.env,
+                    !.lenv = IF "SharedEnv" \in Dev THEN r.lenv ELSE f.lenv,
                     !.bt = SubSeq(r.bt, 1, Len(r.bt) - 1)]
 
 (* READ(k): the k bytes at pos, or nothing when they are not all there      *)
@@ -137,14 +138,32 @@ ExecNotInEnd(r, i)   == LET c == Consume(r, i.max)
 
 (* loop protocol: DESIGN.md Appendix B                                       *)
 TopLoop(r) == r.loops[Len(r.loops)]
-PopLoop(r) == [r EXCEPT !.loops = SubSeq(@, 1, Len(@) - 1)]
+(* INSERTVARIABLE: a binding goes to the current iteration of the nearest    *)
+(* NAMED loop on the loop stack, else to the top-level environment           *)
+NamedIdx(r) == {j \in 1..Len(r.loops) : r.loops[j].name # ""}
+InsertStr(r, x, v) ==
+  IF NamedIdx(r) = {} THEN [r EXCEPT !.env = Bind(@, x, v)]
+  ELSE LET j == MaxOf(NamedIdx(r)) key == ItKey(r.loops[MaxOf(NamedIdx(r))].it)
+       IN [r EXCEPT !.loops[j].vars[key].s = Bind(@, x, v)]
+InsertLoop(r, x, lv) ==
+  IF NamedIdx(r) = {} THEN [r EXCEPT !.lenv = Bind(@, x, lv)]
+  ELSE LET j == MaxOf(NamedIdx(r)) key == ItKey(r.loops[MaxOf(NamedIdx(r))].it)
+       IN [r EXCEPT !.loops[j].vars[key].l = Bind(@, x, lv)]
+(* POPLOOPSTACK: a named loop hands its per-iteration maps to the enclosing  *)
+(* scope                                                                     *)
+PopLoop(r) ==
+  LET top == TopLoop(r)
+      r1  == [r EXCEPT !.loops = SubSeq(@, 1, Len(@) - 1)]
+  IN IF top.name = "" THEN r1 ELSE InsertLoop(r1, top.name, top.vars)
 ExecLoopStart(r, i) ==
   LET fresh == r.loops = <<>> \/ TopLoop(r).id # i.id \/ TopLoop(r).depth # Len(r.calls)
       rel   == r.pos - from
   IN IF ~fresh /\ TopLoop(r).start = rel /\ "NoZeroWidthGuard" \notin Dev THEN Backtrack(r)
      ELSE LET r1 == IF fresh
-                    THEN [r EXCEPT !.loops = Append(@, [id |-> i.id, depth |-> Len(r.calls), it |-> 0, start |-> rel])]
-                    ELSE [r EXCEPT !.loops[Len(r.loops)].it = @ + 1, !.loops[Len(r.loops)].start = rel]
+                    THEN [r EXCEPT !.loops = Append(@, [id |-> i.id, depth |-> Len(r.calls), it |-> 0, start |-> rel,
+                                                        name |-> i.name, vars |-> (ItKey(0) :> EmptyIM)])]
+                    ELSE [r EXCEPT !.loops[Len(r.loops)].it = @ + 1, !.loops[Len(r.loops)].start = rel,
+                                   !.loops[Len(r.loops)].vars = (ItKey(TopLoop(r).it + 1) :> EmptyIM) @@ @]
               it == TopLoop(r1).it
               within == i.max = -1 \/ it <= i.max
           IN IF it < i.min THEN NextPc(r1)
@@ -162,7 +181,7 @@ ExecVarEnd(r, i) ==
   IF r.open = <<>> \/ r.open[Len(r.open)].name # i.name THEN [r EXCEPT !.st = "stuck"]
   ELSE LET rec == r.open[Len(r.open)]
            val == Slice(Text, from + rec.start, r.pos)
-       IN NextPc([r EXCEPT !.open = SubSeq(@, 1, Len(@) - 1), !.env = Bind(r.env, i.name, val)])
+       IN NextPc(InsertStr([r EXCEPT !.open = SubSeq(@, 1, Len(@) - 1)], i.name, val))
 
 ExecSubStart(r, i) ==
   LET need == r.calls = <<>> \/ r.calls[Len(r.calls)].id # i.id
@@ -237,7 +256,7 @@ DoEndSub    == StepOp("sub-")
 DoJump      == StepOp("jump")
 
 MatchRec(n) ==
-  [s |-> from, e |-> m.pos, n |-> n, vars |-> m.env, svars |-> m.env,
+  [s |-> from, e |-> m.pos, n |-> n, vars |-> FlatIM([s |-> m.env, l |-> m.lenv]), svars |-> m.env,
    ls |-> fline, le |-> m.line, cs |-> fcol, ce |-> m.col]
 
 Limit(q, n) == IF n # 0 /\ Len(q) > n THEN SubSeq(q, Len(q) - n + 1, Len(q)) ELSE q
@@ -297,8 +316,8 @@ MatchWF ==
     /\ out[j].ls = LineOf(Text, out[j].s) /\ out[j].le = LineOf(Text, out[j].e)
     /\ out[j].cs = ColOf(Text, out[j].s) /\ out[j].ce = ColOf(Text, out[j].e)
     /\ (j > 1 => out[j - 1].e <= out[j].s /\ out[j].n = out[j - 1].n + 1)
-    /\ \A x \in DOMAIN out[j].vars :
-         \E a \in out[j].s..out[j].e : \E b \in a..out[j].e : out[j].vars[x] = Slice(Text, a, b)
+    /\ \A x \in DOMAIN out[j].svars :
+         \E a \in out[j].s..out[j].e : \E b \in a..out[j].e : out[j].svars[x] = Slice(Text, a, b)
 
 (* the machine's line/column registers always agree with the position       *)
 LineColOK ==
